@@ -7,7 +7,7 @@ Every op record has the same shape (TLC needs every field present).
 
 import hashlib
 
-from . import decode_rec
+from . import common, decode_rec
 from .export_tables import desc_digest
 
 V0 = {"n": "", "k": "", "s": 0, "m": [], "c": [], "t": "", "num": -1}
@@ -128,7 +128,7 @@ def do_op(msg, op, fields, labelmsm=1, name=None, value=None):
         else:
             raise ValueError(op)
     except BaseException as err:  # pylint: disable=broad-except
-        if isinstance(err, (KeyboardInterrupt, SystemExit, MemoryError)):
+        if isinstance(err, (KeyboardInterrupt, SystemExit, MemoryError, common.Watchdog)):
             raise
         _exc(rec, err)
     return rec
